@@ -195,7 +195,7 @@ func runShutdown(c *run.Ctx, state string, actions []string, parkHook bool, pend
 				return
 			}
 		case "pending-reconnect":
-			w.Cur().EndInbound(-1, io.EOF)
+			w.CurConn().EndInbound(-1, io.EOF)
 			if !w.WaitUntil(sim.StepTimeout, func() bool { return d.ReadCount() >= 1 }) {
 				stuck("loss not reported")
 				return
@@ -219,7 +219,7 @@ func runShutdown(c *run.Ctx, state string, actions []string, parkHook bool, pend
 	}
 	w.Mu.Lock()
 	dialsAtAction := w.Dials
-	lastConn := w.Cur()
+	lastConn := w.CurConn()
 	w.Mu.Unlock()
 
 	// the actions, concurrently
